@@ -35,6 +35,7 @@ def check(ctx):
     ctx.rule("R04.3", "the link variable is exp(-i A.(r_e1 - r_e0)) in builder and refresh alike", 4)
     ctx.rule("R04.4", "a constant shift of mu multiplies psi' by a global phase and leaves |psi'|^2 unchanged", 2)
     ctx.rule("R04.5", "covariant operators are written only by MeshOperators.__init__/set_link_exponents; the solver passes A_applied (+A_induced)", 3)
+    ctx.rule("R04.9", "the operator builders never write into the link-exponent / vector-potential arrays they are handed (shared effect rule)", 1)
     ctx.rule("R04.8", "a gauge-transformed potential always reaches the operators: set_link_exponents never skips the refresh on a comparison with a "
                       "remembered view of the caller's array (shared with C10 R10.9)", 1)
     ctx.rule("R04.7", "the vector potential itself (gauge dependent) reaches the physics only through the link variables and through "
@@ -153,6 +154,11 @@ def check(ctx):
     link_callers(ctx, "R04.6")
     from .c10 import no_skipped_refresh
     no_skipped_refresh(ctx, "R04.8")
+    from ..effects import input_purity
+    input_purity(ctx, "R04.9", modules=("tdgl.finite_volume.operators",), min_functions=8,
+                 consequence="an operator builder overwrites the vector-potential array it is handed: the solver keeps that array as its applied "
+                             "potential and adds the induced one to it at every screening iteration, so a uniform gauge shift c then contributes "
+                             "c_x d_x^2 + c_y d_y^2 per edge - not the difference of a site function: observables depend on the gauge")
     potential_uses(ctx)
     fo = repo.func(SOLVER, "TDGLSolver.solve_for_observables")
     src = ast.unparse(fo.node)
